@@ -62,7 +62,8 @@ def mode_shape(k: int, s: int) -> complex:
         return 0j
     re = (((3 * k + 5 * s) % 13) - 6) / 4.0
     if re == 0:
-        re = 1.25
+        re = 0.8 + 0.1 * s      # distinct per sensor: no mode has equal components at two sensors (a constant shape makes
+                                # gen.MPC return NaN - listed finding of C18 - and the MPC hard criterion then rejects it)
     im = ((((2 * k + 3 * s) % 9) - 4) / 5.0) if k in MODE_COMPLEX else 0.0
     return complex(re, im)
 
